@@ -50,8 +50,8 @@ RECURSIVE FilterSeq(_, _)
 FilterSeq(p, xs) ==
     IF xs = <<>> THEN <<>>
     ELSE LET r == Test(p, Head(xs)) IN
-         IF r = TRUE THEN <<Head(xs)>> \o FilterSeq(p, Tail(xs))
-         ELSE IF r = FALSE THEN FilterSeq(p, Tail(xs))
+         IF r = BoolV(TRUE) THEN <<Head(xs)>> \o FilterSeq(p, Tail(xs))
+         ELSE IF r = BoolV(FALSE) THEN FilterSeq(p, Tail(xs))
          ELSE <<r>> \o FilterSeq(p, Tail(xs))
 
 KeysOf(f, xs) == [j \in 1..Len(xs) |-> Apply(f, xs[j])]
@@ -64,15 +64,15 @@ RECURSIVE RunMax(_, _)
 RunMax(ns, j) == IF j = 1 THEN ns[1] ELSE Max2(RunMax(ns, j - 1), ns[j])
 
 ClipV(op, x) ==
-    LET a == IF IsNone(op.hi) THEN x.v ELSE Min2(x.v, op.hi.v)
-        b == IF IsNone(op.lo) THEN a ELSE Max2(a, op.lo.v)
+    LET a == IF IsNone(op.hi) THEN V(x) ELSE Min2(V(x), V(op.hi))
+        b == IF IsNone(op.lo) THEN a ELSE Max2(a, V(op.lo))
     IN IntV(b)
 
 (* assert_: items up to (excluding) the first failing one *)
 RECURSIVE AssertPrefix(_, _)
 AssertPrefix(p, xs) ==
     IF xs = <<>> THEN <<>>
-    ELSE IF Test(p, Head(xs)) = TRUE THEN <<Head(xs)>> \o AssertPrefix(p, Tail(xs))
+    ELSE IF Test(p, Head(xs)) = BoolV(TRUE) THEN <<Head(xs)>> \o AssertPrefix(p, Tail(xs))
     ELSE <<>>
 
 RECURSIVE Assert1Len(_, _, _)   \* number of items that pass
@@ -87,23 +87,23 @@ R(op, xs) ==
     CASE op.op = "map"       -> MapSeq(op.f, xs)
       [] op.op = "starmap"   -> [j \in 1..n |-> ApplyStar(op.f, xs[j])]
       [] op.op = "filter"    -> FilterSeq(op.p, xs)
-      [] op.op = "flat_map"  -> Flatten([j \in 1..n |-> xs[j].v])
+      [] op.op = "flat_map"  -> Flatten([j \in 1..n |-> V(xs[j])])
       [] op.op \in {"identity", "do_action", "progress", "ignore", "errmap", "router"} -> xs
       [] op.op = "clip"      -> [j \in 1..n |-> ClipV(op, xs[j])]
       [] op.op = "fill_none" -> [j \in 1..n |-> IF IsNone(xs[j]) THEN op.v ELSE xs[j]]
       [] op.op = "scan"      -> ScanR(op, xs)
       [] op.op = "count"     -> IF op.reduce THEN <<>> ELSE [j \in 1..n |-> IntV(j)]
       [] op.op = "sum"       -> IF op.reduce THEN <<>>
-                                ELSE LET ps == PrefixSums([j \in 1..n |-> Apply(op.f, xs[j]).v])
+                                ELSE LET ps == PrefixSums([j \in 1..n |-> V(Apply(op.f, xs[j]))])
                                      IN [j \in 1..n |-> IntV(ps[j])]
       [] op.op = "mean"      -> IF op.reduce THEN <<>>
-                                ELSE LET ps == PrefixSums([j \in 1..n |-> Apply(op.f, xs[j]).v])
+                                ELSE LET ps == PrefixSums([j \in 1..n |-> V(Apply(op.f, xs[j]))])
                                      IN [j \in 1..n |-> RatV(ps[j], j)]
       [] op.op = "min"       -> IF op.reduce THEN <<>>
-                                ELSE LET ks == [j \in 1..n |-> Apply(op.f, xs[j]).v]
+                                ELSE LET ks == [j \in 1..n |-> V(Apply(op.f, xs[j]))]
                                      IN [j \in 1..n |-> IntV(RunMin(ks, j))]
       [] op.op = "max"       -> IF op.reduce THEN <<>>
-                                ELSE LET ks == [j \in 1..n |-> Apply(op.f, xs[j]).v]
+                                ELSE LET ks == [j \in 1..n |-> V(Apply(op.f, xs[j]))]
                                      IN [j \in 1..n |-> IntV(RunMax(ks, j))]
       [] op.op = "first"     -> Take(xs, 1)
       [] op.op = "take"      -> Take(xs, op.n)
@@ -134,13 +134,13 @@ F(op, xs) ==
     CASE op.op = "scan"     -> ScanF(op, xs)
       [] op.op = "count"    -> IF op.reduce THEN <<IntV(n)>> ELSE <<>>
       [] op.op = "sum"      -> IF op.reduce
-                               THEN <<IntV(SumSeq([j \in 1..n |-> Apply(op.f, xs[j]).v]))>> ELSE <<>>
+                               THEN <<IntV(SumSeq([j \in 1..n |-> V(Apply(op.f, xs[j]))]))>> ELSE <<>>
       [] op.op = "mean"     -> IF op.reduce /\ n > 0
-                               THEN <<RatV(SumSeq([j \in 1..n |-> Apply(op.f, xs[j]).v]), n)>> ELSE <<>>
+                               THEN <<RatV(SumSeq([j \in 1..n |-> V(Apply(op.f, xs[j]))]), n)>> ELSE <<>>
       [] op.op = "min"      -> IF ~op.reduce THEN <<>> ELSE IF n = 0 THEN <<None>>
-                               ELSE <<IntV(RunMin([j \in 1..n |-> Apply(op.f, xs[j]).v], n))>>
+                               ELSE <<IntV(RunMin([j \in 1..n |-> V(Apply(op.f, xs[j]))], n))>>
       [] op.op = "max"      -> IF ~op.reduce THEN <<>> ELSE IF n = 0 THEN <<None>>
-                               ELSE <<IntV(RunMax([j \in 1..n |-> Apply(op.f, xs[j]).v], n))>>
+                               ELSE <<IntV(RunMax([j \in 1..n |-> V(Apply(op.f, xs[j]))], n))>>
       [] op.op = "last"     -> IF n = 0 THEN <<>> ELSE <<xs[n]>>
       [] op.op \in {"to_list", "to_array"} -> <<LstV(xs)>>
       [] op.op = "pad_end"  -> IF n = 0 THEN <<>>
@@ -157,7 +157,7 @@ Delta(op, h, x) ==
 
 (* fatal condition (assert_, assert_1): does consuming x after h kill the stream? *)
 Fatal(op, h, x) ==
-    CASE op.op = "assert"  -> Len(AssertPrefix(op.p, h)) = Len(h) /\ Test(op.p, x) # TRUE
+    CASE op.op = "assert"  -> Len(AssertPrefix(op.p, h)) = Len(h) /\ Test(op.p, x) # BoolV(TRUE)
       [] op.op = "assert1" -> Assert1Len(op.p, h, 1) = Len(h) /\ Len(h) > 0
                               /\ Test2(op.p, Last(h), x) # TRUE
       [] OTHER -> FALSE
@@ -214,9 +214,9 @@ SessFold(op, ts, cl, i, ref, last, curStart, cur, acc) ==
       ELSE SessFold(op, ts, cl, i + 1, ref, t, curStart, Append(cur, i), acc)
 
 Sessions(op, xs) ==
-    LET ts == [j \in 1..Len(xs) |-> Apply(op.tm, xs[j]).v]
+    LET ts == [j \in 1..Len(xs) |-> V(Apply(op.tm, xs[j]))]
         cl == [j \in 1..Len(xs) |-> IF op.closing.n = "none" THEN FALSE
-                                     ELSE Test(op.closing, xs[j]) = TRUE]
+                                     ELSE Test(op.closing, xs[j]) = BoolV(TRUE)]
     IN IF xs = <<>> THEN <<>> ELSE SessFold(op, ts, cl, 1, ts[1], ts[1], 1, <<>>, <<>>)
 
 Plan(op, xs) ==
